@@ -254,4 +254,11 @@ def r20_6(ctx):
     ctx.ob("R20.6", "rebase:re-renders", bool(sy), r.loc(), "rebase re-renders through Error::syntax over the given text")
 
 
-RULES = [("R20.1", r20_1), ("R20.2", r20_2), ("R20.3", r20_3), ("R20.4", r20_4), ("R20.5", r20_5), ("R20.6", r20_6)]
+def r20_s(ctx):
+    """error offsets stay inside the input: the over-reading reader's length excludes exactly the padding and a parse cannot end in it (shared with C01)"""
+    from . import c01
+    ctx.include(c01.r01_2, 'R20.S')
+    ctx.include(c01.r01_2b, 'R20.S')
+
+
+RULES = [("R20.1", r20_1), ("R20.2", r20_2), ("R20.3", r20_3), ("R20.4", r20_4), ("R20.5", r20_5), ("R20.6", r20_6), ("R20.S", r20_s)]
